@@ -95,11 +95,23 @@ impl Parser {
                 return self.parse_impl(cursor, payload);
             }
 
-            let res = cursor.transaction(|cur| self.parse_impl(cur, payload));
+            // every attempt starts at a candidate frame start with a fresh state: the cursor is
+            // rolled back not only on an error but also when the candidate is incomplete, so
+            // that its bytes are still available if it turns out not to be a frame
+            self.reset();
+            let res = cursor.transaction(|cur| match self.parse_impl(cur, payload) {
+                Ok(Some(header)) => Ok(header),
+                Ok(None) => Err(None),
+                Err(err) => Err(Some(err)),
+            });
 
             match res {
-                Ok(x) => return Ok(x),
-                Err(_) => {
+                Ok(header) => return Ok(Some(header)),
+                Err(None) => {
+                    self.reset();
+                    return Ok(None);
+                }
+                Err(Some(_)) => {
                     let _ = cursor.read_u8(); // advance one byte
                     self.reset();
                     // goto next iteration
